@@ -49,6 +49,47 @@ theorem ints_exact (N : Nat) (xs : List Int) :
     · false_or_by_contra; rename_i h0
       exact hc (Or.inl ⟨x, hx, by omega⟩)
 
+/-- **an index list must consist of Python integers**: a list/tuple with an entry that
+is a numpy scalar (integer or floating), a float or anything else that is neither `int`
+nor `str` is rejected with `ValueError` — nothing is truncated or converted — and a
+sequence of `int`/`bool` entries with at least one `int` (or empty) is treated as the
+index list of their values (`True` = 1); a non-empty sequence of `bool` only is used by
+numpy as a boolean mask of length `N` (`IndexError` for any other length). -/
+theorem seq_non_int_rejected (arr : Arr) (nx ny nz : Nat) (items : List Item) (choices : List (List Nat)) :
+    ((∃ it ∈ items, it.isInt = false ∧ it.isStr = false) →
+      storageMask arr nx ny nz (.seq items) choices = .error "ValueError")
+    ∧ (items.all Item.isInt = true → (items = [] ∨ items.all Item.isBool = false) →
+      storageMask arr nx ny nz (.seq items) choices
+        = storageMask arr nx ny nz (.ints (items.map Item.intVal)) choices)
+    ∧ (items ≠ [] → items.all Item.isBool = true →
+      storageMask arr nx ny nz (.seq items) choices
+        = if items.length = nTot nx ny nz then .ok (items.map (fun it => it.intVal == 1), false)
+          else .error "IndexError") := by
+  constructor
+  · rintro ⟨it, hit, h1, h2⟩
+    have hA : items.all Item.isInt = false := by
+      rw [Bool.eq_false_iff]; intro h
+      have := List.all_eq_true.mp h it hit
+      rw [h1] at this; exact Bool.false_ne_true this
+    have hB : items.all Item.isStr = false := by
+      rw [Bool.eq_false_iff]; intro h
+      have := List.all_eq_true.mp h it hit
+      rw [h2] at this; exact Bool.false_ne_true this
+    simp [storageMask, classify, hA, hB]
+  constructor
+  · intro h hb
+    rcases hb with hb | hb
+    · subst hb; simp [storageMask, classify]
+    · simp [storageMask, classify, h, hb]
+  · intro hne hb
+    have hI : items.all Item.isInt = true := by
+      rw [List.all_eq_true] at hb ⊢
+      intro it hit
+      have := hb it hit
+      cases it <;> simp_all [Item.isBool, Item.isInt]
+    have hE : items.isEmpty = false := by cases items <;> simp_all
+    simp [storageMask, classify, hI, hb, hE, extVec]
+
 /-- **a group request records exactly the named group**: a string that contains a group
 word (the first of `VIAL_GROUPS` found) and neither `random` nor `uniform` gives the
 mask of `getVialGroup` for that group. -/
@@ -67,21 +108,8 @@ theorem uniform_request (arr : Arr) (nz : Nat) (exts : List Nat) (s : String) (c
     (hr : hasSub "random".toList (lower s) = false) (hu : hasSub "uniform".toList (lower s) = true)
     (hn : digitRuns (lower s) none = [n]) (hn0 : 0 < n) (hc : 0 < (whereTrue mask0).length) :
     interpretString arr nz exts s choice
-      = .ok (maskFromIdx exts.length (uniformPick (whereTrue mask0) n), false) := by
-  unfold interpretString
-  simp only [hr, hu, hn]
-  have h1 : ¬ n = 0 := by omega
-  have h2 : ¬ (whereTrue mask0).length = 0 := by omega
-  cases hfg : firstGroup (lower s) with
-  | none =>
-    rw [hfg] at hm
-    simp only [pure, Except.pure, Except.ok.injEq] at hm
-    subst hm
-    simp [bind, Except.bind, pure, Except.pure, h1, h2]
-  | some g =>
-    rw [hfg] at hm
-    simp only at hm
-    simp [hm, bind, Except.bind, pure, Except.pure, h1, h2]
+      = .ok (maskFromIdx exts.length (uniformPick (whereTrue mask0) n), false) :=
+  uniform_request_lemma arr nz exts s choice mask0 n hm hr hu hn hn0 hc
 
 /-- **`uniform n` records at most `n` vials, all from the group, at least one**
 (`cand` = the vials of the group, non-empty; `n ≥ 1`). -/
@@ -111,21 +139,8 @@ theorem random_request (arr : Arr) (nz : Nat) (exts : List Nat) (s : String) (ch
     (hn : digitRuns (lower s) none = [n]) :
     interpretString arr nz exts s choice
       = if n > (whereTrue mask0).length then .error "ValueError"
-        else .ok (maskFromIdx exts.length choice, true) := by
-  unfold interpretString
-  simp only [hr, hn]
-  cases hfg : firstGroup (lower s) with
-  | none =>
-    rw [hfg] at hm
-    simp only [pure, Except.pure, Except.ok.injEq] at hm
-    subst hm
-    by_cases h : n > (whereTrue (List.replicate exts.length true)).length <;>
-      simp [bind, Except.bind, pure, Except.pure, h, throw, throwThe, MonadExceptOf.throw]
-  | some g =>
-    rw [hfg] at hm
-    simp only at hm
-    by_cases h : n > (whereTrue mask0).length <;>
-      simp [hm, bind, Except.bind, pure, Except.pure, h, throw, throwThe, MonadExceptOf.throw]
+        else .ok (maskFromIdx exts.length choice, true) :=
+  random_request_lemma arr nz exts s choice mask0 n hm hr hn
 
 /-- **`random n` records exactly `n` vials, all from the group**, for every choice
 without repetition of `n` candidates (`cand` = the vials of the group, all `< N`). -/
@@ -234,6 +249,8 @@ theorem nonvacuous :
     ∧ ((storageMask .square 3 3 1 (.ints [0, 4, 8]) []).toOption.map (fun p => whereTrue p.1) = some [0, 4, 8])
     ∧ (storageMask .square 3 3 1 (.str "2random3") [[0]]).toOption = none
     ∧ (storageMask .hexagonal 3 3 1 (.str "corner_random_3") [[0, 6, 1]]).toOption = none
+    ∧ (storageMask .square 3 3 1 (.seq [.int 0, .npInt 8]) []).toOption = none
+    ∧ ((storageMask .square 3 3 1 (.seq [.bool true, .int 2]) []).toOption.map (fun p => whereTrue p.1) = some [1, 2])
     ∧ firstGroup (lower "cornerEDGE") = some "corner"
     ∧ digitRuns (lower "2random3") none = [2, 3] := by decide
 
